@@ -154,3 +154,6 @@ func VerifResetSharedLimiters() {
 	rateLimiterPools = make(map[int]*sharedRateLimiterPool)
 	poolsMu.Unlock()
 }
+
+// VerifDedupInFlight reports how many questions have a registered leader generation right now.
+func (c *Cache) VerifDedupInFlight() int { return c.wg.VerifLen() }
